@@ -1,17 +1,20 @@
 (* Codec/Dec.v — the streaming decoder of decode.rs (read_subframes and below), fused
-   parse-and-decode, in the integer semantics of the given build profile. *)
+   parse-and-decode.  Since the repo fixes 86995e9..daee75b every arithmetic step of the decoder is
+   explicitly wrapping (wrapping_add/sub/mul, `as` casts), so debug and release builds compute the
+   same function: the model has no build-profile parameter any more.  `arith_s Release w z` below is
+   "the exact value z wrapped to w bits". *)
 From FlacCodec Require Export Struct.
 From FlacBase Require Import Crc.
 Open Scope N_scope.
 
 Section Dec.
-  Variable p : profile.
 
-  (* decode.rs:1736-1750 predict, for sample type of width w (32: i32, 64: i64).
-     Σ (x as i64) * c with checked i64 mul/add in Debug; >> shift; from_i64; += in width w *)
+  (* decode.rs predict, for sample type of width w (32: i32, 64: i64).
+     fold(0, |acc, (x, c)| acc.wrapping_add((x as i64).wrapping_mul(c))) >> shift, added to the
+     residual with wrapping_add in i64, then truncated to the sample type *)
   Fixpoint dot_p (xs_rev coeffs : list Z) (acc : Z) : res Z :=
     match xs_rev, coeffs with
-    | x :: xs, c :: cs => t <- arith_s p 64 (x * c) ;; a <- arith_s p 64 (acc + t) ;; dot_p xs cs a
+    | x :: xs, c :: cs => t <- arith_s Release 64 (x * c) ;; a <- arith_s Release 64 (acc + t) ;; dot_p xs cs a
     | _, _ => Ok acc
     end.
   Definition from_i64 (w : Z) (z : Z) : Z := if (w =? 32)%Z then as_i32 z else z.
@@ -20,8 +23,9 @@ Section Dec.
     | [] => Ok (rev done_rev)
     | r :: rest =>
         s <- dot_p done_rev coeffs 0%Z ;;
-        sh <- shr_s p 64 s shift ;;
-        v <- arith_s p w (r + from_i64 w sh) ;;
+        sh <- shr_s Release 64 s shift ;;
+        (* residuals[0] = I::from_i64(residuals[0].into().wrapping_add(sum >> shift)) *)
+        let v := from_i64 w (wrap_s 64 (r + sh)) in
         predict w coeffs shift (v :: done_rev) rest
     end.
 
@@ -43,7 +47,7 @@ Section Dec.
     po <-- p_rd 4 ;;
     let block_size := (order + nres)%nat in
     let count := (2 ^ N.to_nat po)%nat in
-    _ <-- p_guard (count <=? block_size)%nat EPartitionOrder ;;   (* repo fix 80c9381; before: rchunks_mut(0) panic *)
+    _ <-- p_guard (block_size mod count =? 0)%nat EPartitionOrder ;;   (* repo fixes 80c9381, 6ca0ed6; before: rchunks_mut(0) panic *)
     let lens := rchunk_lens nres (block_size / count)%nat in
     _ <-- p_guard (length lens =? count)%nat EPartitionOrder ;;
     dec_partitions method lens.
@@ -97,32 +101,32 @@ Section Dec.
       (* side channel has bps + 1 <= 32 bits: everything in i32 *)
       if a =? 8 then
         l <-- dec_subframe 32 bps n ;; s <-- dec_subframe 32 (bps + 1) n ;;
-        r <-- plift (map2_res (fun l s => arith_s p 32 (l - s)) l s) ;; pret [l; r]
+        r <-- plift (map2_res (fun l s => arith_s Release 32 (l - s)) l s) ;; pret [l; r]
       else if a =? 9 then
         s <-- dec_subframe 32 (bps + 1) n ;; r <-- dec_subframe 32 bps n ;;
-        l <-- plift (map2_res (fun s r => arith_s p 32 (s + r)) s r) ;; pret [l; r]
+        l <-- plift (map2_res (fun s r => arith_s Release 32 (s + r)) s r) ;; pret [l; r]
       else
         m <-- dec_subframe 32 bps n ;; s <-- dec_subframe 32 (bps + 1) n ;;
         lr <-- plift (map2_res2 (fun m s =>
-                 m2 <- arith_s p 32 (m * 2) ;; ab <- abs_s p 32 s ;;
-                 sum <- arith_s p 32 (m2 + Z.rem ab 2) ;;
-                 a1 <- arith_s p 32 (sum + s) ;; b1 <- arith_s p 32 (sum - s) ;;
+                 m2 <- arith_s Release 32 (m * 2) ;;
+                 sum <- arith_s Release 32 (m2 + s mod 2) ;;                 (* side & 1 *)
+                 a1 <- arith_s Release 32 (sum + s) ;; b1 <- arith_s Release 32 (sum - s) ;;
                  Ok ((a1 / 2)%Z, (b1 / 2)%Z)) m s) ;;
         pret [fst lr; snd lr]
     else
       (* 32-bit stream: the side channel has 33 bits and is decoded as i64 *)
       if a =? 8 then
         l <-- dec_subframe 32 bps n ;; s <-- dec_subframe 64 (bps + 1) n ;;
-        r <-- plift (map2_res (fun l s => v <- arith_s p 64 (l - s) ;; Ok (as_i32 v)) l s) ;; pret [l; r]
+        r <-- plift (map2_res (fun l s => v <- arith_s Release 64 (l - s) ;; Ok (as_i32 v)) l s) ;; pret [l; r]
       else if a =? 9 then
         s <-- dec_subframe 64 (bps + 1) n ;; r <-- dec_subframe 32 bps n ;;
-        l <-- plift (map2_res (fun s r => v <- arith_s p 64 (s + r) ;; Ok (as_i32 v)) s r) ;; pret [l; r]
+        l <-- plift (map2_res (fun s r => v <- arith_s Release 64 (s + r) ;; Ok (as_i32 v)) s r) ;; pret [l; r]
       else
         m <-- dec_subframe 32 bps n ;; s <-- dec_subframe 64 (bps + 1) n ;;
         lr <-- plift (map2_res2 (fun m s =>
-                 m2 <- arith_s p 64 (m * 2) ;; ab <- abs_s p 64 s ;;
-                 sum <- arith_s p 64 (m2 + Z.rem ab 2) ;;
-                 a1 <- arith_s p 64 (sum + s) ;; b1 <- arith_s p 64 (sum - s) ;;
+                 m2 <- arith_s Release 64 (m * 2) ;;
+                 sum <- arith_s Release 64 (m2 + s mod 2) ;;
+                 a1 <- arith_s Release 64 (sum + s) ;; b1 <- arith_s Release 64 (sum - s) ;;
                  Ok (as_i32 (a1 / 2), as_i32 (b1 / 2))%Z) m s) ;;
         pret [fst lr; snd lr].
 
